@@ -256,10 +256,16 @@ func (l *queue) Empty() bool {
 	if l.head == nil || l.tail == nil || len(l.segments) == 0 {
 		return true
 	}
-	if l.head == l.tail && l.head.pos == l.tail.filePos()-footerSize {
-		return true
+
+	// Nothing is pending only if every segment has been read to its end and holds no
+	// buffered appends. (The file cursor says nothing about that: it moves with every
+	// read, so comparing against it reported a non-empty queue as empty after Advance.)
+	for _, s := range l.segments {
+		if !s.drained() {
+			return false
+		}
 	}
-	return false
+	return true
 }
 
 // diskUsage returns the total size on disk used by the queue
@@ -730,6 +736,13 @@ func (l *segment) advance() error {
 	}
 
 	return nil
+}
+
+// drained reports whether the segment has no unread and no buffered blocks.
+func (l *segment) drained() bool {
+	l.mu.RLock()
+	defer l.mu.RUnlock()
+	return l.pos == l.size-footerSize && (l.buf == nil || l.buf.Len() == 0)
 }
 
 func (l *segment) close() error {
